@@ -450,10 +450,14 @@ impl Check for RwCheck {
     }
     fn gen(&self, seed: u64, tier: Tier) -> Run {
         let mut run = gen_rw_run(self.id, seed, tier);
-        if self.id == "C11R" {
-            let mut w = Rng::stream(seed, "naming");
-            run.set("naming", 0);
-            run.set("naming_b", 1 + w.below(NAMING_KINDS as usize - 1) as i64);
+        if self.id == "C11R" || self.id == "C07S" {
+            if self.id == "C11R" {
+                let mut w = Rng::stream(seed, "naming");
+                run.set("naming", 0);
+                run.set("naming_b", 1 + w.below(NAMING_KINDS as usize - 1) as i64);
+            }
+            // C07S: the modify hook unites without a justification, and the proof checker has no
+            // instance test for the b[x := t] form
             run.set("modify", 0);
             // b[x := t] picks a representative term of b by extraction / by class creation
             // order, which is a documented tie-break by hash order: not part of C11's claim
@@ -516,6 +520,7 @@ impl Check for RwCheck {
             "C11R" => "the C03 workload executed twice with identical knobs but different slot namings; the naming-independent fingerprint (node count, live classes, slot and symmetry sums, per-class (slots, nodes) multiset, equality partition and eq-matrix over all inserted terms), the analysis data and the best extraction cost of every inserted term must agree after every operation; non-trivial = at least one iteration changed the e-graph; distinct = distinct canonical key",
             "C06R" => "the C03 workload (rewriting over LA: cyclic classes, classes whose cheapest node has redundant slots); after every rewrite iteration an Extractor for one of three strictly monotone cost functions is built and every live class with a finite term is extracted under three invocations (identity, renamed, own slots permuted) and checked as in C06; non-trivial = at least one iteration changed the e-graph and 3 extractions were checked; distinct = distinct canonical key",
             "C13R" => "the C03 workload as a history: after every operation (insertions and rewrite iterations) the equal pairs recorded at earlier points, all old handles, per-term slot counts and the direction of the progress measure are re-checked; non-trivial = at least one change and at least one recorded pair re-checked; distinct = distinct canonical key",
+            "C07S" => "explanations build: the C03 workload (rewriting over LA through apply_rewrites and Runner::run, conditional rules, rules that move terms under binders; without the b[x := t] rule and the modify hook); after every iteration explain_equivalence is asked why sampled inserted terms equal the smallest term of their class and each other, and the proof DAG is re-checked by M_proof with explicit leaves accepted only as instances of a pool rule carrying that rule's name; non-trivial = at least one iteration changed the e-graph and at least one rule leaf was checked; distinct = distinct canonical key",
             "C08R" => "the C03 workload (rewriting over LA with analysis, modify hook, both substitution methods) checked only for C08's clauses: no panic / fuel exhaustion in any operation, EGraph::check and the API-level structure clauses after every operation; non-trivial = at least one iteration changed the e-graph; distinct = distinct canonical key",
             _ => "",
         }
@@ -547,6 +552,7 @@ impl Check for RwCheck {
         let c08 = self.id == "C08R";
         let c06 = self.id == "C06R";
         let c13 = self.id == "C13R";
+        let c07 = self.id == "C07S";
         let prop = if c08 { "C08" } else { self.id };
         let cost_kind = [SimCost::Size, SimCost::PositionWeighted, SimCost::OpWeighted][(run.get("oracle_seed") % 3) as usize];
         let mut recorded_pairs: Vec<(AppliedId, AppliedId, usize)> = Vec::new();
@@ -581,6 +587,9 @@ impl Check for RwCheck {
             let res = catch_op(|| -> Option<Violation> {
                 if c03 && (op.name == "rewrite" || op.name == "runner") {
                     return semantic_check(&mut s, p, &mut orng, &mut out, k);
+                }
+                if c07 && (op.name == "rewrite" || op.name == "runner") {
+                    return super::explain::check_rw_proofs(&mut s, p, &mut orng, &mut out, k);
                 }
                 if c14 {
                     let raw_unions = run.ops.iter().any(|o| o.name == "union");
@@ -657,6 +666,8 @@ impl Check for RwCheck {
                         out.violations.push(panic_violation("C06", "extraction_succeeds", &pn, k));
                     } else if c13 {
                         out.violations.push(panic_violation("C13", "old_handle_unusable", &pn, k));
+                    } else if c07 {
+                        out.violations.push(panic_violation("C07", "explain_returns", &pn, k));
                     } else {
                         out.discarded = Some("panic_in_query".into());
                     }
@@ -686,7 +697,7 @@ impl Check for RwCheck {
         let recomputed = out.counters.get("classes_recomputed").copied().unwrap_or(0);
         let extr = out.counters.get("extractions_checked").copied().unwrap_or(0);
         let rechecked = out.counters.get("recorded_pairs_rechecked").copied().unwrap_or(0);
-        out.nontrivial = out.discarded.is_none() && changes >= 1 && ((c03 && evals >= 50) || (c14 && recomputed >= 10) || c08 || (c06 && extr >= 3) || (c13 && rechecked >= 1));
+        out.nontrivial = out.discarded.is_none() && changes >= 1 && ((c03 && evals >= 50) || (c14 && recomputed >= 10) || c08 || (c06 && extr >= 3) || (c13 && rechecked >= 1) || (c07 && out.counters.get("rule_leaves_checked").copied().unwrap_or(0) >= 1));
         out
     }
 }
